@@ -71,6 +71,16 @@ ASSUMPTIONS = [
     "the text of an undefined object (hint built by the engine from the path, including "
     "the quotes of repr()) is judged as one data-derived string: an Undefined subclass that "
     "legitimately returns engine markup through __html__ is not part of the workload",
+    "history family: the twin of a safe value is a plain str with the same text, so it "
+    "spells entities; a `&` of the twin is counted raw when it directly follows the twin "
+    "sentinel W and is not `&amp;`, and is reported only if an environment that never saw "
+    "the safe value escapes it (filters such as escape_once that keep existing entities by "
+    "design are thereby not reported). The safe values of the PRIMING renders include "
+    "Markup data; judged renders never do",
+    "data are plain str (and int/bool/None) in lists, tuples, dicts, keys and filter "
+    "arguments, as the property's quantifier says; strings hidden inside other Python "
+    "objects (e.g. the tzname of a datetime's tzinfo reached through `date: '%Z'`) are "
+    "outside it and not generated",
     "a raw `&` is reported only when the counterfactual (`&` -> `<` in the data) shows a "
     "raw `<`; a defect that leaves only `&` unescaped and no other character is outside "
     "the oracle's reach",
@@ -177,12 +187,14 @@ def any_markup(v: Any, depth: int = 0) -> bool:
 class Rec:
     """What the filter wrappers saw during one render."""
 
-    __slots__ = ("on_path", "trail", "markup_from_plain")
+    __slots__ = ("on_path", "trail", "markup_from_plain", "capture", "calls")
 
-    def __init__(self) -> None:
+    def __init__(self, capture: str | None = None) -> None:
         self.on_path: set[str] = set()
         self.trail: list[dict[str, Any]] = []
         self.markup_from_plain: list[str] = []
+        self.capture = capture      # filter whose call values are to be recorded
+        self.calls: list[tuple[Any, tuple[Any, ...], dict[str, Any]]] = []
 
 
 class FilterWrap:
@@ -202,6 +214,9 @@ class FilterWrap:
         rec = self._box[0]
         ins = [left, *args]
         ins.extend(v for k, v in kwargs.items() if k not in ("context", "environment"))
+        if rec.capture == self._name and len(rec.calls) < 6:
+            rec.calls.append((left, args, {k: v for k, v in kwargs.items()
+                                           if k not in ("context", "environment")}))
         if any(tainted(x) for x in ins):
             rec.on_path.add(self._name)
             if any_markup(rv) and not any(any_markup(x) for x in ins):
@@ -301,6 +316,18 @@ class Engine:
                 self.tables[profile] = table
         self.filter_names = {p: sorted(e.filters) for p, e in self.envs.items()}
 
+    def add_env(self, key: str) -> None:
+        """A brand-new standard auto-escaping environment (wrapped) under *key*."""
+        from liquid2 import DictLoader
+        from liquid2 import Environment
+
+        table: dict[str, str] = {}
+        env = Environment(auto_escape=True, loader=DictLoader(table))
+        for name in list(env.filters):
+            env.filters[name] = FilterWrap(name, env.filters[name], self.box)
+        self.envs[key] = env
+        self.tables[key] = table
+
     def date_cache_clear(self) -> bool:
         f = self.envs["std"].filters["date"]
         cc = getattr(f, "cache_clear", None)
@@ -311,13 +338,13 @@ class Engine:
 
     def render(
         self, main: str, templates: dict[str, str], data: dict[str, Any], mode: str,
-        profile: str, catalog: bool,
+        profile: str, catalog: bool, capture: str | None = None,
     ) -> tuple[str | None, str | None, Rec]:
         env = self.envs[profile]
         table = self.tables[profile]
         table.clear()
         table.update(templates)
-        rec = Rec()
+        rec = Rec(capture)
         self.box[0] = rec
         d = dict(data)
         if catalog:
@@ -1061,6 +1088,9 @@ def shards(tier: str, seed: int) -> list[dict[str, Any]]:  # noqa: ARG001
     specs += [{"kind": "deep", "i": i, "n": nd, "reps": 1 if tier == "quick" else 4}
               for i in range(nd)]
     specs.append({"kind": "config", "i": 0, "n": 1})
+    nh = 2 if tier == "quick" else 6
+    specs += [{"kind": "history", "i": i, "n": nh, "reps": 3 if tier == "quick" else 12}
+              for i in range(nh)]
     nu = 2 if tier == "quick" else 8
     specs += [{"kind": "undef", "i": i, "n": nu, "count": 1500 if tier == "quick" else 30000}
               for i in range(nu)]
@@ -1084,8 +1114,13 @@ def floors(tier: str) -> dict[str, int]:
         "set:deep_depths_with_flow": 11,
         "set:deep_shapes_with_flow": 7,
         "set:deep_sinks_with_flow": 14,
-        "config_sequences": 20,
-        "config_renders_with_flow": 20,
+        "history_twins_judged": 1_500,
+        "history_twins_with_flow": 700,
+        "set:history_filters": 35,
+        "set:history_prestates": 12,
+        "config_sequences": 200,
+        "config_renders_with_flow": 200,
+        "set:loader_options_with_flow": 8,
         "set:undefined_text_constructs": 20,
     }
 
@@ -1105,6 +1140,8 @@ def run_shard(spec: dict[str, Any], ctx: Ctx) -> None:
         _deep(eng, spec, ctx)
     elif kind == "config":
         _config(eng, spec, ctx)
+    elif kind == "history":
+        _history(eng, spec, ctx)
 
 
 def _rand(eng: Engine, spec: dict[str, Any], ctx: Ctx) -> None:
@@ -1481,15 +1518,29 @@ def _config_run(eng: Engine, what: str, site: tuple[Any, ...] | None, main: str 
     eng.ctx.ev()
     try:
         if what == "shared-loader":
-            loader = (CachingDictLoader if opt.get("caching", True) else DictLoader)(
-                dict(CONFIG_TEMPLATES))
+            lopt = opt.get("loader") or {}
+            if opt.get("caching", True):
+                loader: Any = CachingDictLoader(
+                    dict(CONFIG_TEMPLATES), auto_reload=lopt.get("auto_reload", True),
+                    capacity=lopt.get("capacity", 300))
+            else:
+                loader = DictLoader(dict(CONFIG_TEMPLATES))
             plain = Environment(auto_escape=False, loader=loader)
             esc = Environment(auto_escape=True, loader=loader)
             assert site is not None
+            aload = bool(lopt.get("async_load"))
             if primed:
-                for name in CONFIG_TEMPLATES:
-                    plain.get_template(name).render(x="hi", ls=["x"])
-            t = esc.get_template(site[2]) if site[1] is None else esc.from_string(site[1])
+                # the template the site will ask for is loaded last (capacity 1 keeps it)
+                target = site[2] or _site_target(site[1])
+                order = [n for n in CONFIG_TEMPLATES if n != target] + [target]
+                for name in order:
+                    pt = (drive(plain.get_template_async(name)) if aload
+                          else plain.get_template(name))
+                    pt.render(x="hi", ls=["x"])
+            if site[1] is None:
+                t = drive(esc.get_template_async(site[2])) if aload else esc.get_template(site[2])
+            else:
+                t = esc.from_string(site[1])
             d = dict(data, x=data["d0"])
         else:
             raise AssertionError(what)
@@ -1497,6 +1548,17 @@ def _config_run(eng: Engine, what: str, site: tuple[Any, ...] | None, main: str 
     except Exception as e:  # noqa: BLE001
         return None, type(e).__name__
     return out, None
+
+
+def _site_target(src: str) -> str:
+    m = re.search(r"'(\w+)'", src)
+    return m.group(1) if m else "p"
+
+
+LOADER_OPTIONS = [
+    {"auto_reload": ar, "capacity": cap, "async_load": al}
+    for ar in (True, False) for cap in (300, 1) for al in (False, True)
+]
 
 
 def _config_cls(out: str | None) -> str | None:
@@ -1518,22 +1580,28 @@ def _config(eng: Engine, spec: dict[str, Any], ctx: Ctx) -> None:
         data.update(d0=blk, d1=blk + " " + blk, ls=[blk, blk], b1=blk, b2=blk, b3=blk, b4=blk)
         small = {n: data[n] for n in ("d0", "d1", "b1", "b2", "b3", "b4", "ls")}
         # (a) one caching loader shared by a non-escaping and an escaping environment
-        for site in CONFIG_SITES:
+        for site, lopt in [(s_, o_) for s_ in CONFIG_SITES for o_ in LOADER_OPTIONS]:
             k += 1
-            mode = "async" if k % 2 else "sync"
+            # async loads of partials happen in async renders
+            mode = "async" if (lopt["async_load"] or k % 2) else "sync"
             ctx.count("config_sequences")
-            out, err = _config_run(eng, "shared-loader", site, None, small, mode, True)
+            out, err = _config_run(eng, "shared-loader", site, None, small, mode, True,
+                                   loader=lopt)
             if out is not None and FLOW_RE.search(out):
                 ctx.count("renders_with_flow")
                 ctx.count("config_renders_with_flow")
-                ctx.nt("config", "shared-loader", site, repr(small), mode)
+                ctx.nt("config", "shared-loader", site, repr(small), mode, repr(lopt))
                 ctx.seen("constructs", f"shared-loader:{site[0]}")
+                ctx.seen("loader_options_with_flow",
+                         f"auto_reload={lopt['auto_reload']},capacity={lopt['capacity']},"
+                         f"async_load={lopt['async_load']}")
             cls = _config_cls(out)
             if cls is None:
                 continue
-            fresh, _ = _config_run(eng, "shared-loader", site, None, small, mode, False)
+            fresh, _ = _config_run(eng, "shared-loader", site, None, small, mode, False,
+                                   loader=lopt)
             plain_loader, _ = _config_run(eng, "shared-loader", site, None, small, mode, True,
-                                          caching=False)
+                                          caching=False, loader=lopt)
             culprit = ("shared-caching-loader" if _config_cls(fresh) is None
                        and _config_cls(plain_loader) is None else "loader")
             ctx.violation(
@@ -1542,9 +1610,219 @@ def _config(eng: Engine, spec: dict[str, Any], ctx: Ctx) -> None:
                 f"auto_escape=True environment a non-escaping template: {_short(out)} "
                 f"(same sequence without priming: {_short(fresh)})",
                 {"config": "shared-loader", "site": list(site), "templates": CONFIG_TEMPLATES,
-                 "data": small, "mode": mode, "output": out, "output_unprimed": fresh,
+                 "loader": lopt, "data": small, "mode": mode, "output": out,
+                 "output_unprimed": fresh,
                  "output_with_non_caching_loader": plain_loader})
     ctx.sample({"kind": "config", "sites": [s[0] for s in CONFIG_SITES]})
+
+
+# ---------------------------------------------------------------------------
+# history on one environment: untrusted twins of earlier SAFE values
+# ---------------------------------------------------------------------------
+
+TWIN_BLOCKS = ["W<K", "W>K", "W&K", "W'K", 'W"K']
+# a `&` of the twin data that is not escaped (the twin's text spells entities, so
+# `W&lt;K` in the output is the data's own `&` left raw; escaped it is `W&amp;lt;K`)
+TWIN_AMP_RE = re.compile(r"W&(?!amp;)", re.I)
+HFLOW_RE = re.compile(r"W&(?:amp;)?(?:lt|gt|amp|#39|#34);K", re.I)
+HISTORY_SEP = "~~~"
+
+# how a SAFE value with data-derived text comes about (head expression, statements before)
+SAFE_PRESTATES = [
+    ("escape", "", "w | escape"),
+    ("literal+data", "", "'hi ' | append: w"),
+    ("capture", "{% capture c %}{{ w }} {{ w2 }}{% endcapture %}", "c"),
+    ("markup-data-escaped", "", "mw"),
+    ("markup-data-raw", "", "mr"),
+    ("url_encode", "", "w | url_encode"),
+    ("newline_to_br", "", "wn | newline_to_br"),
+    ("strip_html-of-escaped", "", "w | escape | strip_html"),
+    ("strip_newlines", "", "wn | strip_newlines"),
+    ("translated", "", "'hi %(x)s' | t: x: w"),
+    ("joined", "", "wl | join"),
+    ("split-of-escaped", "", "w3 | escape | split: ' '"),
+    ("upcase-of-escaped", "", "w | escape | upcase"),
+]
+
+
+class _Unsupported(Exception):
+    pass
+
+
+def _plainify(v: Any, depth: int = 0) -> Any:
+    """The same value with every Markup replaced by a plain str of equal text."""
+    if isinstance(v, str):
+        return str.__str__(v) if hasattr(v, "__html__") else v
+    if v is None or isinstance(v, (bool, int, float)):
+        return v
+    if depth > 4:
+        raise _Unsupported
+    if isinstance(v, (list, tuple)):
+        return [_plainify(x, depth + 1) for x in v]
+    if isinstance(v, dict):
+        return {_plainify(k, depth + 1): _plainify(x, depth + 1) for k, x in v.items()}
+    raise _Unsupported
+
+
+def _realise(d: dict[str, Any]) -> dict[str, Any]:
+    from markupsafe import Markup
+
+    return {k: (Markup(v["__markup__"]) if isinstance(v, dict) and "__markup__" in v else v)
+            for k, v in d.items()}
+
+
+def _history_data(rng: random.Random) -> dict[str, Any]:
+    from markupsafe import escape
+
+    def tw(lo: int, hi: int, glue: tuple[str, ...] = ("", " ", "-")) -> str:
+        x = rng.choice(TWIN_BLOCKS)
+        for _ in range(rng.randint(lo, hi) - 1):
+            x += rng.choice(glue) + rng.choice(TWIN_BLOCKS)
+        return x
+
+    d = gen_data(rng)
+    w = tw(1, 2)
+    d.update(w=w, w2=tw(1, 2), w3=tw(2, 3, (" ",)), wn=tw(2, 3, ("\n",)),
+             wl=[tw(1, 1), tw(1, 2)],
+             mw={"__markup__": str.__str__(escape(w))}, mr={"__markup__": w})
+    return d
+
+
+def _twin_program(name: str, call: tuple[Any, tuple[Any, ...], dict[str, Any]]
+                  ) -> tuple[str, dict[str, Any]] | None:
+    """`{{ p0 | F: p1, …, k: pN }}` with the recorded values as PLAIN data."""
+    left, args, kwargs = call
+    if not (any_markup(left) or any(any_markup(a) for a in args)
+            or any(any_markup(v) for v in kwargs.values())):
+        return None
+    try:
+        data: dict[str, Any] = {"p0": _plainify(left)}
+        parts = []
+        for i, a in enumerate(args, 1):
+            data[f"p{i}"] = _plainify(a)
+            parts.append(f"p{i}")
+        for j, (k, v) in enumerate(kwargs.items(), len(args) + 1):
+            data[f"p{j}"] = _plainify(v)
+            parts.append(f"{k}: p{j}")
+    except _Unsupported:
+        return None
+    return "p0 | " + name + (": " + ", ".join(parts) if parts else ""), data
+
+
+def _history_judge(out: str | None) -> tuple[str | None, int]:
+    if out is None:
+        return None, 0
+    raw, _amp, _flow = scan(out, "std")
+    cls = None
+    for ch, nm in CLASSES:
+        if raw.get(ch):
+            cls = nm
+            break
+    return cls, len(TWIN_AMP_RE.findall(strip_engine_markup(out, "std")))
+
+
+def _history_case(eng: Engine, name: str, prime_main: str, prime_data: dict[str, Any],
+                  expr: str, jdata: dict[str, Any], mode: str, same_template: bool,
+                  env_key: str = "std") -> dict[str, Any]:
+    """twin before priming, priming, twin after priming — all on ONE environment; and
+    the twin alone on an environment that has never seen a safe value (baseline)."""
+    if len(expr) % 2:
+        jmain = "{{ " + expr + " }}"
+    else:
+        jmain = "{% capture s %}{{ " + expr + " }}{% endcapture %}[{{ s }}]"
+    pd = _realise(prime_data)
+    res: dict[str, Any] = {"jmain": jmain}
+    base, _e, _r = eng.render(jmain, {}, jdata, mode, "fresh", False)
+    res["baseline"] = base
+    outs = []
+    o, _e, _r = eng.render(jmain, {}, jdata, mode, env_key, False)
+    outs.append(("before-priming", o))
+    if same_template:
+        o, _e, _r = eng.render(prime_main + HISTORY_SEP + jmain, {}, {**pd, **jdata}, mode,
+                               env_key, False)
+        outs.append(("same-template", o.rsplit(HISTORY_SEP, 1)[1] if o is not None else None))
+    else:
+        eng.render(prime_main, {}, pd, "sync", env_key, False)
+        o, _e, _r = eng.render(jmain, {}, jdata, mode, env_key, False)
+        outs.append(("after-priming", o))
+    _bc, bt = _history_judge(base)
+    res["outs"] = outs
+    res["cls"] = None
+    for label, o in outs:
+        cls, t = _history_judge(o)
+        if cls is None and t > bt:
+            cls = "raw-amp"
+        if cls:
+            if label == "before-priming":
+                label += " (history left by earlier sequences on this environment)"
+            res.update(cls=cls, where=label, out=o,
+                       history=_history_judge(base)[0] != cls or cls == "raw-amp")
+            break
+    return res
+
+
+def _history(eng: Engine, spec: dict[str, Any], ctx: Ctx) -> None:
+    rng = random.Random(f"{spec['seed']}:history:{spec['i']}")
+    eng.add_env("scratch")
+    g0 = Gen(rng, "std", eng.filter_names["std"])
+    ge = Gen(rng, "std", eng.filter_names["std"], urate=1.0)
+    ge.uatoms = ["e1", "e2"]
+    fnames = [n for n in eng.filter_names["std"] if n in FT]
+    k = 0
+    sample = None
+    for fi, name in enumerate(fnames):
+        if fi % spec["n"] != spec["i"]:
+            continue
+        eng.add_env("fresh")    # never sees a safe value: the baseline for this filter
+        cat, _o, alts = FT[name]
+        for rep_i in range(spec["reps"]):
+            data = _history_data(rng)
+            primes: list[tuple[str, str]] = []
+            for label, pre, head in SAFE_PRESTATES:
+                primes.append((label, pre + "{{ " + head + " | " + g0.filt(name) + " }}"))
+            if any(a for a in alts):
+                esafe = ("{% assign e1 = w | escape %}{% capture e2 %}{{ w2 }}{% endcapture %}")
+                for left in ("d0", "dt", "ls", "w"):
+                    primes.append(("safe-argument", esafe + "{{ " + left + " | " + ge.filt(name)
+                                   + " }}"))
+            for label, pmain in primes:
+                k += 1
+                mode = "async" if k % 2 else "sync"
+                ctx.count("history_sequences")
+                words = set(_WORD.findall(pmain))
+                pdata = {n: v for n, v in data.items() if n in words}
+                _o2, _e2, rec = eng.render(pmain, {}, _realise(pdata), "sync", "scratch", False,
+                                           capture=name)
+                twins = [t for t in (_twin_program(name, c) for c in rec.calls) if t][:2]
+                for expr, jdata in twins:
+                    same = (k + len(expr)) % 3 == 0
+                    r = _history_case(eng, name, pmain, pdata, expr, jdata, mode, same)
+                    ctx.count("history_twins_judged")
+                    flow = any(o is not None and HFLOW_RE.search(o) for _l, o in r["outs"])
+                    if flow:
+                        ctx.count("renders_with_flow")
+                        ctx.count("history_twins_with_flow")
+                        ctx.nt("history", name, pmain, r["jmain"], repr(jdata), mode, same)
+                        ctx.seen("history_filters", name)
+                        ctx.seen("history_prestates", label)
+                        ctx.seen("filters", name)
+                        ctx.seen("constructs", "history:" + ("same-template" if same else "two-templates"))
+                        sample = {"kind": "history", "prime": pmain, "twin": r["jmain"],
+                                  "twin_data": jdata}
+                    if r["cls"]:
+                        culprit = f"safe-twin-history:{name}" if r["history"] else name
+                        ctx.violation(
+                            f"{r['cls']}:{culprit}",
+                            f"an untrusted plain string whose text equals a SAFE value that "
+                            f"went through `{name}` earlier on the same environment is written "
+                            f"unescaped ({r['where']}): {_short(r['out'])} (environment without "
+                            f"that history: {_short(r['baseline'])})",
+                            {"history": True, "filter": name, "prestate": label,
+                             "prime": {"main": pmain, "data": pdata}, "main": r["jmain"],
+                             "data": jdata, "mode": mode, "same_template": same,
+                             "where": r["where"], "output": r["out"], "baseline": r["baseline"]})
+    if sample:
+        ctx.sample(sample)
 
 
 # input pre-states for the systematic sweep: (label, statements before, head, br?, type)
@@ -1751,14 +2029,48 @@ def replay(wit: dict[str, Any], ctx: Ctx) -> None:
         print(f"replay C04 configuration sequence [{wit['config']}]")
         if wit["config"] == "shared-loader":
             site = tuple(wit["site"])
-            out, err = _config_run(eng, "shared-loader", site, None, wit["data"], mode, True)
-            fresh, _ = _config_run(eng, "shared-loader", site, None, wit["data"], mode, False)
+            lo = wit.get("loader") or {}
+            out, err = _config_run(eng, "shared-loader", site, None, wit["data"], mode, True,
+                                   loader=lo)
+            fresh, _ = _config_run(eng, "shared-loader", site, None, wit["data"], mode, False,
+                                   loader=lo)
+            print(f"  loader options: {lo}")
             print(f"  site {site}; escaping env output after priming: {out!r} (error {err});"
                   f" unprimed: {fresh!r}")
             cls = _config_cls(out)
             if cls:
                 culprit = "shared-caching-loader" if _config_cls(fresh) is None else "loader"
                 ctx.violation(f"{cls}:{culprit}:{site[0]}", f"reproduced: {_short(out)}", wit)
+        return
+    if wit.get("history"):
+        eng.add_env("fresh")
+        expr = wit["main"]
+        r = None
+        for same in ([True] if wit.get("same_template") else [False]):
+            # re-run the exact twin program (its sink is part of wit["main"])
+            pd = _realise(wit["prime"]["data"])
+            base, _e, _r = eng.render(expr, {}, wit["data"], wit.get("mode", "sync"), "fresh", False)
+            if same:
+                o, _e, _r = eng.render(wit["prime"]["main"] + HISTORY_SEP + expr, {},
+                                       {**pd, **wit["data"]}, wit.get("mode", "sync"), "std", False)
+                o = o.rsplit(HISTORY_SEP, 1)[1] if o is not None else None
+            else:
+                eng.render(wit["prime"]["main"], {}, pd, "sync", "std", False)
+                o, _e, _r = eng.render(expr, {}, wit["data"], wit.get("mode", "sync"), "std", False)
+            cls, t = _history_judge(o)
+            bcls, bt = _history_judge(base)
+            if cls is None and t > bt:
+                cls = "raw-amp"
+            r = (cls, o, base, bcls)
+        print(f"replay C04 history: filter {wit['filter']}, safe value via {wit.get('prestate')}")
+        print(f"  prime : {wit['prime']['main']!r}  data={wit['prime']['data']!r}")
+        print(f"  twin  : {expr!r}  data={wit['data']!r}")
+        print(f"  output after the safe value was seen: {r[1]!r} -> {r[0]}")
+        print(f"  output on an environment without that history: {r[2]!r}")
+        if r[0]:
+            hist = r[3] != r[0] or r[0] == "raw-amp"
+            culprit = f"safe-twin-history:{wit['filter']}" if hist else wit["filter"]
+            ctx.violation(f"{r[0]}:{culprit}", f"reproduced: {_short(r[1])}", wit)
         return
     if wit.get("deep"):
         sp = wit["deep"]
